@@ -346,6 +346,23 @@ def gen_basis(rng, n, lmax=3, kmax=3, mmax=3, span=2, exp_hi=None, exp_lo=0.02, 
     return shells
 
 
+def far_near_centres(rng, lo=50.0, hi=100.0, rel=(0.5, 0.95), spread=0.4, nextra=1):
+    """[A, B, C1, ..]: A = a 53-bit centre lo..hi bohr (per axis) from the coordinate origin; B = a DISTINCT centre
+    that agrees with A in every component to within rel x 1e-5 of the COORDINATE (3e-4 .. 1e-3 bohr apart): whatever
+    decides "same centre" with a tolerance relative to the absolute coordinates (numpy.allclose / isclose defaults)
+    treats the two as one, although the integrals between them differ from the one-centre values at first order in
+    |AB| sqrt(alpha) ~ 1e-3; C1.. = `nextra` ordinary neighbours within `spread` bohr per axis of A.  All coordinates
+    are doubles (Fractions of floats)."""
+    R = [rng.choice([-1, 1]) * rng.uniform(lo, hi) for _ in range(3)]
+    A = [Fraction(x) for x in R]
+    B = [Fraction(x * (1.0 + rng.choice([-1, 1]) * 1e-5 * rng.uniform(*rel))) for x in R]
+    out = [A, B]
+    for _ in range(nextra):
+        out.append([Fraction(x + rng.choice([-1, 1]) * rng.uniform(0.15, 1.0) * spread) for x in R])
+    assert all(a != b for a, b in zip(A, B))
+    return out
+
+
 def gen_window_pair(rng, la, lb, lo=14.0, hi=26.0):
     """Two compact shells far apart: min-exponent product mu*R^2 in [lo, hi] (integrals ~1e-5..1e-20 of the
     diagonal: where a distance-based shortcut or screening error shows)."""
